@@ -619,11 +619,22 @@ def hll_query_helpers(F):
     """(linear counting, raw estimate) helpers of the query kernel: LC takes scalars only, EST takes the uint8 registers.  Both are
     registered as units (their calls stay opaque); any other helper of the query kernel is walked inline."""
     q = hll_kernels(F)["query"]
-    callees = {c.callee.name: c.callee for c in F.calls_from(q) if c.callee.is_kernel}
+    # every kernel the query kernel reaches (the estimator may be split into private helpers that are walked inline)
+    callees, todo = {}, [q]
+    while todo:
+        cur = todo.pop()
+        for c in F.calls_from(cur):
+            if c.callee.is_kernel and c.callee.name not in callees and c.callee is not q:
+                callees[c.callee.name] = c.callee
+                todo.append(c.callee)
+    takes_regs = lambda f: any(t is not None and t.is_array and t.kind == "uint" and t.bits == 8 for t in f.ptypes.values())
     lc = est = None
     for name, f in callees.items():
         tys = list(f.ptypes.values())
-        if any(t is not None and t.is_array and t.kind == "uint" and t.bits == 8 for t in tys):
+        if takes_regs(f):
+            # the raw estimate is the one that reads the registers itself, not a helper that only hands them on
+            if any(c.callee.is_kernel and takes_regs(c.callee) for c in F.calls_from(f)):
+                continue
             est = f if est is None else est
         elif not any(t is not None and t.is_array for t in tys) and len(f.params) == 2 and \
                 any(isinstance(n, ast.Call) and (dotted(n.func) or "").split(".")[-1] == "log" for n in ast.walk(f.node)):
